@@ -81,6 +81,9 @@ type Val struct {
 	NonNil bool
 	Pos    token.Pos
 	Canon  *Val // named constants: the value-interned constant used for relation facts
+	// Escaped: the allocation was handed to opaque code (a decoder, a user callback): fields it was not given at its allocation site
+	// are unknown afterwards, not zero
+	Escaped bool
 }
 
 func (v *Val) String() string {
